@@ -825,6 +825,11 @@ impl Director {
                 let d = if self.rng.gen_bool(0.7) && !self.blocks.is_empty() {
                     let keys: Vec<_> = self.blocks.keys().cloned().collect();
                     Digest(*keys.choose(&mut self.rng).unwrap())
+                } else if self.rng.gen_bool(0.5) {
+                    // the store is shared with the mempool: ask for an entry that is a batch
+                    let d = crate::sym::sha(&self.rng.gen::<u64>().to_le_bytes());
+                    self.give(run, Stim::Batch(d.clone())).await;
+                    d
                 } else {
                     crate::sym::sha(&self.rng.gen::<u64>().to_le_bytes())
                 };
